@@ -3,6 +3,7 @@
 # usage: baseline.sh [repo-dir]
 repo="${1:-/repo}"
 out=$(mktemp /var/tmp/baseline.XXXXXX.json)
+before=$(git -C "$repo" status --porcelain --untracked-files=no)
 for m in . ./test; do
   (cd "$repo/$m" && go test -mod=mod -json -vet=off -count=1 -timeout 25m ./... 2>/dev/null)
 done > "$out"
@@ -25,5 +26,7 @@ for m in missing:
 sys.exit(1 if missing else 0)
 EOF
 rc=$?
+# the suite itself rewrites a few tracked files (src/plzinit/BUILD, test/go.mod): restore what it dirtied
+if [ -z "$before" ]; then git -C "$repo" checkout -- . 2>/dev/null; fi
 rm -f "$out"
 exit $rc
